@@ -1,0 +1,6 @@
+//go:build !verif
+
+package msg
+
+// verifYield marks a lock boundary for the verification harness; without the build tag it does nothing.
+func verifYield(string) {}
